@@ -21,3 +21,16 @@ func SetSchedHook(f func(ev int, worker uintptr, y, x int)) {
 	}
 	lossy.VerifSchedHook.Store(&f)
 }
+
+// LossyRecon is lossy.VerifRecon.
+type LossyRecon = lossy.VerifRecon
+
+// SetAfterEncodeHook installs (or removes, with nil) the hook receiving the lossy
+// encoder's own reconstruction planes after each EncodeFrame.
+func SetAfterEncodeHook(f func(LossyRecon)) {
+	if f == nil {
+		lossy.VerifAfterEncodeHook.Store(nil)
+		return
+	}
+	lossy.VerifAfterEncodeHook.Store(&f)
+}
